@@ -32,7 +32,7 @@ def profiles(tier):
     flip_ops = A.hypergraph_weights(U2, [(1,), (1, 2), (2,)])
     P.append(("closure", Profile("weights-on-unweighted", spec2, False, flip_ops, enabled=A.weight_cap(cap)), {}))
     # E1: histories
-    d = 3 if tier == "quick" else 4
+    d = 3 if tier == "quick" else 5
     hs_ops = A.hypergraph_structure(U, edges=[(1,), (1, 2), (2, 3), (1, 2, 3)], batches=False)
     P.append(("histories", Profile("hist-structure", spec, False, hs_ops, tag="structure"), {"depth": d}))
     hw_ops = A.hypergraph_weights(U, [(1, 2), (1, 2, 3), (1,)])
@@ -47,10 +47,10 @@ def profiles(tier):
         U4 = (1, 2, 3, 4)
         spec4 = HypergraphSpec(U4, 99)
         e4 = A.subsets(U4, 1, 3)
-        P.append(("closure", Profile("structure-4", spec4, False, A.hypergraph_structure(U4, edges=e4, batches=False)), {"reps": 2}))
+        P.append(("closure", Profile("structure-4", spec4, False, A.hypergraph_structure(U4, edges=e4, batches=False)), {"reps": 1}))
         hm_ops = A.hypergraph_metadata(U2, [(1,), (1, 2)], rich=True)
         P.append(("histories", Profile("hist-metadata", spec2, False, hm_ops, tag="metadata"), {"depth": 3}))
-        P.append(("closure", Profile("metadata-rich", spec2, False, hm_ops), {"reps": 2}))
+        P.append(("closure", Profile("metadata-rich", spec2, False, [o for o in hm_ops if o[0] != "set_attr_hg"]), {"reps": 1}))
     return P
 
 
